@@ -20,6 +20,29 @@ type DemandSpec struct {
 	Late       bool // a later reader R2 arrives after the source went away / after the timeout
 	Close      bool // the manager is shut down concurrently with the first phase instead of at the end
 	MoreReaders int // additional readers requesting at the start (R3, R4, ...)
+	Blocking   bool // static source only: the protocol client's Run blocks until its context is cancelled (like the real ones) instead of failing at once
+}
+
+// BlockingSource is a static source instance whose Run does what every real protocol client does when nothing
+// goes wrong on the network: it returns when its context is cancelled.
+type BlockingSource struct{ Logger }
+
+// Run implements the static source.
+func (b *BlockingSource) Run(p defs.StaticSourceRunParams) error {
+	vsched.Log("source instance running")
+	for {
+		sel := vsched.Select(false, vsched.R(p.Context.Done()), vsched.R(p.ReloadConf))
+		if sel.I == 0 {
+			break
+		}
+	}
+	vsched.Log("source instance stopped")
+	return fmt.Errorf("terminated")
+}
+
+// APISourceDescribe implements the static source.
+func (b *BlockingSource) APISourceDescribe() *defs.APIPathSource {
+	return &defs.APIPathSource{Type: "rtspSource", ID: ""}
 }
 
 func (p *PM) readTask(id string, done chan struct{}) {
@@ -49,6 +72,21 @@ func DemandBody(c *conf.Conf, sp DemandSpec) func() {
 		Live = nil
 		pm := New(c, AllowAll{}, true)
 		Live = pm
+		if sp.Static && sp.Blocking {
+			vsched.WaitQuiet() // the path goroutine has created its (not yet started) source handler
+			installed := false
+			defer func() {
+				if !installed {
+					vsched.Fail("HARNESS: the blocking source instance could not be installed")
+				}
+			}()
+			if pa := pm.PathByName("p"); pa != nil {
+				if h := core.VerifStaticHandler(pa); h != nil {
+					staticsources.VerifSetInstance(h, &BlockingSource{})
+					installed = true
+				}
+			}
+		}
 		desc, _, _ := NewDesc()
 		r1 := make(chan struct{})
 		d1 := make(chan struct{})
